@@ -61,20 +61,24 @@ def main():
                 dirs += [os.path.join(b, x) for x in sorted(os.listdir(b)) if os.path.exists(os.path.join(b, x, 'patch.diff'))]
     bad = 0
     retry = []
+    results = []
     with cf.ThreadPoolExecutor(max_workers=4) as ex:
         for (idx, d), (d2, st, msg) in zip(list(enumerate(dirs)), ex.map(lambda t: run_case(t[1], t[0]), list(enumerate(dirs)))):
             if st == 'MISMATCH' and 'expect=violation' in msg:
                 retry.append((idx, d))
                 continue
             print('%-10s %-40s %s' % (st, os.path.relpath(d, VERIF), msg))
+            results.append(dict(case=os.path.relpath(d, VERIF), status=st, detail=msg, by='proof (failed obligation)'))
             if st != 'OK':
                 bad += 1
     # units the verifier could not read on the changed tree: sequential re-run with the bounded stand-in enabled
     for idx, d in retry:
         d2, st, msg = run_case(d, idx, fallback=True)
         print('%-10s %-40s %s [bounded stand-in]' % (st, os.path.relpath(d, VERIF), msg))
+        results.append(dict(case=os.path.relpath(d, VERIF), status=st, detail=msg, by='bounded family (labelled bounded)'))
         if st != 'OK':
             bad += 1
+    json.dump(results, open(os.path.join(VERIF, '.build', 'selftest_results.json'), 'w'), indent=1)
     sys.exit(1 if bad else 0)
 
 
